@@ -76,6 +76,9 @@ func genConcPlan(prop string, seed uint64, tier string) *Plan {
 	c.FlushMax = 100 << 20
 	c.BodyBig = 1 << 20
 	c.MaxSteps = 600000
+	if c.StmtYield {
+		c.MaxSteps = 2400000
+	}
 	c.NoGCDays = 0
 	if r.Bool(1, 2) {
 		c.CheckVHash = false
